@@ -118,7 +118,9 @@ func (t *tgen) name() string {
 // verbatim, whatever it contains; an environment value cannot hold a NUL.)
 var envValues = []string{"value", "aws:secret", "  padded ", "${{env:GTV_A}}", "D1c", "3m", "é",
 	"c2VjcmV0cGFk==", "host=db port=5432", "=x", "x=", "=", "a=b=c", "k=${{env:GTV_A|d}}", `"quoted"`, `'single'`,
-	"${{env:X9 | \"d\"}}", "line1\nline2", "tab\tin", "C:\\temp\\new", "日本語=値", "}}", "|", "\\"}
+	"${{env:X9 | \"d\"}}", "line1\nline2", "tab\tin", "C:\\temp\\new", "日本語=値", "}}", "|", "\\",
+	// leading / trailing blanks and line breaks belong to the value
+	"value\n", "value\r\n", "value\n\n", "\nvalue", "\r\nvalue\r\n", " value ", "\tvalue\t", "\n", "\r", " ", "v \n", "token==\n"}
 
 const valueChars = "abcXYZ019 =:/\\\"'|{}$-_.,;é"
 
@@ -195,6 +197,10 @@ func (t *tgen) nearMiss() string {
 		"${{Env:" + n + "}}", "${{ENV:" + n + "}}", "${{env:}}", "${{env: }}", "${{env:|d}}", "${{env: | d }}",
 		"${{env:" + n + "}", "${{env:" + n, "{env:" + n + "}}", "${{en v:" + n + "}}", "${{}}", "${{env}}", "$", "${{", "}}",
 		"text with ${{ inside", "a ${{env:" + n + "}} b",
+		// other "schemes": only env: is a template, everything else is an ordinary string
+		"${{file:/etc/hostname}}", "${{file:/nonexistent/gtv}}", "${{ file: /etc/hostname | d }}", "${{file:" + n + "}}",
+		"${{secret:" + n + "}}", "${{vault:a/b}}", "${{env2:" + n + "}}", "${{envfile:" + n + "}}", "${{sys:" + n + "}}", "${{cmd:true}}",
+		"${{http://h/p}}", "${{" + n + ":env}}",
 	}
 	return forms[t.r.IntN(len(forms))]
 }
@@ -300,6 +306,8 @@ func main() {
 		run(set, m("k", s("${{env:GTV_NOT}}")))
 		run(set, m("k", m("D1b", s("${{env:GTV_NOT}}"), "default", gcx.List(s("${{env:GTV_A}}"), s("x${{env:GTV_NOT}}")))))
 		run(set, m("k", m("D1a", s("${{env:GTV_NOT}}"), "default", s("fine"))))
+		// strings of other "schemes" are not templates
+		run(set, m("k", s("${{file:/etc/hostname}}"), "l", gcx.List(s("${{file:/nonexistent/gtv}}"), s("${{secret:GTV_A}}")), "m", s("${{ file: /etc/hostname | d }}")))
 		// keys are never templates
 		run(set, m("${{env:GTV_A}}", s("v")))
 		// defaults with backslashes / escape-like sequences / other quote characters: only the
@@ -309,7 +317,7 @@ func main() {
 		}
 		// values of set variables are taken verbatim: `=` anywhere, template-like, quoted, long
 		for _, v := range []string{"c2VjcmV0cGFk==", "host=db port=5432", "=x", "x=", "=", "a=b=c", "${{env:GTV_A}}", `"q"`,
-			strings.Repeat("long=", 400)} {
+			strings.Repeat("long=", 400), "value\n", "value\r\n", "\nvalue", " padded ", "\n"} {
 			run(map[string]string{"GTV_A": v, "X9": "plain"}, m("k", s("${{env:GTV_A}}"), "l", gcx.List(s("${{ env: GTV_A | d }}"), s("${{env:X9}}"))))
 		}
 		// measured quirks of the pattern (outside the property's space)
